@@ -58,3 +58,10 @@ Example C10_operator_when_unbound_nonvacuous :
   lex_all [key_a; key_b; key_a_minus_b] inp_a_minus_b = Some [KName key_a_minus_b].
 Proof. exact operator_when_unbound_witness. Qed.
 Print Assumptions C10_operator_when_unbound_nonvacuous.
+
+(* the for / some / every tweak: with `in` as the first part the original code indexed consumed_positions[-1] (a panic);
+   the repaired code (/repo 83bd59b) lexes the candidate as an ordinary name *)
+Theorem C10_till_in_first_part_orig_refuted :
+  lex_name_orig [] true inp_in_plus_x 0 = LCrash /\ lex_name [] true inp_in_plus_x 0 = LName inp_in_plus_x 4.
+Proof. exact till_in_first_part_witness. Qed.
+Print Assumptions C10_till_in_first_part_orig_refuted.
